@@ -220,6 +220,10 @@ def check_C25(tier, seed):
     schemafam.T_(extra, "B")["fields"].append(schemafam.field("need", "[A!]", [schemafam.param("k", "Int!")]))
     schemafam.T_(extra, "B")["fields"].append(schemafam.field("need2", "A", [schemafam.param("k", "Int!", G.I(3)), schemafam.param("s", "String!")]))
     schemafam.T_(extra, "B")["fields"].append(schemafam.field("fine", "A", [schemafam.param("k", "Int!", G.I(3)), schemafam.param("s", "String")]))
+    # vertex types WITHOUT declared properties (only edges; only `__typename` to resolve): an object type and an interface with an implementer
+    extra["types"].append(schemafam.vtype("Hub", "type", [], [schemafam.field("item", "[A!]"), schemafam.field("hub", "Hub")]))
+    extra["types"].append(schemafam.vtype("Linked", "interface", [], [schemafam.field("to", "[Linked!]")]))
+    extra["types"].append(schemafam.vtype("Chain", "type", ["Linked"], [schemafam.field("to", "[Linked!]")]))
     docs.append({"id": len(docs) + 1, "label": "required_parameters", "doc": extra, "sdl": schemafam.render(extra), "abs": schemafam.abstract(extra)})
     ok = vmap("schema", [{"id": d["id"], "sdl": d["sdl"]} for d in docs], wd, "schemas")
     valid = [d for d, o in zip(docs, ok) if o["outcome"] == "ok"]
